@@ -1,5 +1,6 @@
 """C15 - head/tail/nth select exactly the requested rows of each group (positions; any group size via an inductive step)."""
 from . import rowselect as F
+from . import restore as RS
 from . import inductive as I
 from . import common
 
@@ -30,6 +31,12 @@ def cases(tier, seed):
                 out.append(c)
     for c in out:
         c["name"] = F.case_name(c)
+    # index restoration: the real _get_row_selection(keep_input_index=True) on a RangeIndex with symbolic start and step
+    for ncols in (1, 2):
+        for L in ((2, 3) if tier == "quick" else (2, 3, 4)):
+            c = {"kind": "restore", "N": 4 if tier == "quick" else 5, "L": L, "ncols": ncols}
+            c["name"] = RS.case_name(c)
+            out.append(c)
     for op in ("nth", "head", "tail"):
         for neg in ((False, True) if op == "nth" else (False,)):
             c = {"op": op, "G": 2 if tier == "quick" else 3, "inductive": True, "neg": neg}
@@ -41,32 +48,44 @@ def cases(tier, seed):
 def run_case(E, case):
     if case.get("inductive"):
         return I.run_case(E, case, PROP)
+    if case.get("kind") == "restore":
+        return common.run_generic(E, case, PROP, RS)
     return common.run_generic(E, case, PROP, F)
 
 
 def replay(case, inputs, cand=None):
     if case.get("inductive"):
         return I.replay(case, inputs, cand)
+    if case.get("kind") == "restore":
+        return RS.replay(case, inputs, cand)
     return F.replay(case, inputs, cand)
 
 
 def validate(E, seed, tier):
-    cs = [c for c in cases("quick", seed) if not c.get("inductive") and not c.get("via")]
+    cs = [c for c in cases("quick", seed) if not c.get("inductive") and not c.get("via") and c.get("kind") != "restore"]
     return F.validate_cases(E, cs, seed, 60 if tier == "quick" else 200)
 
 
 META = {
-    "glue": ['groupby_lib/groupby/numba.py::find_first_n', 'groupby_lib/groupby/numba.py::find_last_n', 'groupby_lib/groupby/core.py::head',
+    "glue": ['groupby_lib/groupby/core.py::_get_row_selection', 'groupby_lib/groupby/core.py::_validate_input_lengths_and_indexes', 'groupby_lib/groupby/core.py::_get_indexes_from_values',
+             'groupby_lib/util.py::convert_data_to_arr_list_and_keys', 'groupby_lib/groupby/core.py::_maybe_squeeze_to_1d', 'groupby_lib/groupby/numba.py::find_first_n', 'groupby_lib/groupby/numba.py::find_last_n', 'groupby_lib/groupby/core.py::head',
              'groupby_lib/groupby/core.py::tail', 'groupby_lib/groupby/core.py::nth', 'groupby_lib/groupby/core.py::_unify_group_key_chunks'],
     "bounds": {"quick": {"N": 4, "G": 2, "n_nth": "-5..5", "n_head_tail": "0..5", "inductive": "row index and counts < 2^40, G=2"},
                "thorough": {"N": 7, "G": 3, "n_nth": "-8..8", "n_head_tail": "0..8", "inductive": "row index and counts < 2^40, G=3"}},
     "enumerated": ["n", "mask present or not"],
-    "symbolic": ["group codes", "boolean mask bits", "inductive step: row index, per-group visit counts, n, the row's code and mask bit"],
-    "assumptions": ["positions only: the positional take / index restoration in GroupBy._get_row_selection is pandas code (outside)",
+    "symbolic": ["group codes", "boolean mask bits", "index restoration: start and step of the RangeIndex, the selected positions, the values", "inductive step: row index, per-group visit counts, n, the row's code and mask bit"],
+    "assumptions": ["kernel and glue families: positions only (GroupBy._get_row_selection is cut to 'return the positions')",
+                    "index-restoration family: the real GroupBy._get_row_selection(keep_input_index=True) on the pandas contract model "
+                    "(convert_data_to_arr_list_and_keys, _validate_input_lengths_and_indexes, boolean compress of the positions (forks), "
+                    "RangeIndex take = start + step * position, DataFrame(dict).iloc[positions].set_index, _maybe_squeeze_to_1d); values are a "
+                    "Series or a dict of Series over ONE RangeIndex with symbolic start (|start| <= 50) and step (0 < |step| <= 5); positions are "
+                    "arbitrary distinct rows or -1 (what the kernels return is the other families' subject); grouping with sort off; "
+                    "replayed through the public nth(0) on a categorical key built to select exactly those positions",
                     "GroupBy.head/tail/nth: the real methods run on directly constructed states (contiguous codes; chunked codes with per-chunk "
                     "dictionaries, N=4 quick / 6 thorough); _get_row_selection is cut to 'return the positions'",
                     "inductive step: pre-state = any state satisfying 'seen = count wrapped into the counter dtype, out = what the "
                     "definition gives after that many rows'; such states are reachable by a group with that many rows, which is how a "
                     "counterexample is replayed", "NumPy/numba models (DESIGN 3.5)"],
-    "outside": ["iloc/set_index/sort_index in _get_row_selection (original relative order under an arbitrary index)", "N > 6 for the bounded part"],
+    "outside": ["index restoration for indexes other than a RangeIndex (labelled, duplicated, Multi), the final sort_index of a sorting grouper, "
+                "keep_input_index=False (the (group, rank) MultiIndex)", "N > 6 for the bounded part"],
 }
